@@ -140,7 +140,7 @@ def check(index, ctx):
                 ctx.undecided("T", key, "path not fully typed: " + "; ".join(f"{e['loc']} {e.get('why', '')}" for e in unk[:3]), cls.loc())
                 continue
             ops = sops(r)
-            srt = [e for e in ops if e["sop"] in ("sort", "msort") and e["in_origin"] == ["matrix"]]
+            srt = [e for e in ops if e["sop"] in ("sort", "msort", "argsort") and e["in_origin"] == ["matrix"]]
             if len(srt) != 1:
                 ctx.violated("T", "TrimmedMean.forward: sort of the matrix", f"expected exactly one sort of the raw matrix, found {len(srt)}", cls.loc())
                 continue
@@ -155,6 +155,12 @@ def check(index, ctx):
                         f"window [{start}, {stop}) == [trim_number, m - trim_number)",
                         f"window [{start}, {stop}) differs from [trim_number, m - trim_number)" + ("; " + "; ".join(problems) if problems else ""),
                         chain[0]["loc"] if chain else s["loc"], derivation={"start": repr(start), "stop": repr(stop), "ops": [e["text"] for e in chain]})
+            if s["sop"] == "argsort":
+                # argsort + take_along_dim(matrix, trimmed indices): the gathered values are the trimmed window of the sorted matrix
+                tk = [e for e in ops if e["sop"] == "take_along_dim" and s["id"] in e.get("idx_origin", [])]
+                okt = len(tk) == 1 and tk[0].get("raw") and tk[0].get("axis") == "R" and all(c["id"] in tk[0]["idx_origin"] for c in chain)
+                ctx.require(okt, "T", "TrimmedMean.forward: values gathered with the trimmed argsort", "take_along_dim(matrix, argsort window, dim=0)",
+                            "the indices of the trimmed window are not used to gather the entries of the raw matrix along the row axis", tk[0]["loc"] if tk else s["loc"])
             red = [e for e in ops if e["sop"] == "reduce" and s["id"] in e["in_origin"]]
             okr = len(red) == 1 and red[0]["fn"] == "mean" and red[0]["over_pos"] == [s["axis_pos"]] and all(c["id"] in red[0]["in_origin"] for c in chain)
             ctx.require(okr, "T", "TrimmedMean.forward: mean over the trimmed window", "single mean over the sorted axis of the trimmed tensor",
@@ -202,7 +208,12 @@ def check(index, ctx):
                         f"ordering of the distances is not ascending+sorted (largest={t1.get('largest')}, sorted={t1.get('sorted')}, descending={t1.get('descending')})", t1["loc"])
             chain = ([t1] if t1["sop"] == "topk" else []) + [e for e in ops if e["sop"] in ("slice", "narrow") and t1["id"] in e["in_origin"] and e.get("axis_pos") == t1["axis_pos"]]
             start, stop, problems = window_of(chain, m, ctx, "K", key, cls.loc())
-            good = not problems and start == ONE and (stop - start) == m - f - Poly.const(2)
+            # the self distance is excluded either by dropping the first (smallest, = 0) entry of the ascending window, or by putting +inf on the
+            # diagonal of the (square, same rows on both axes) distance matrix before selecting
+            fd = [e for e in ops if e["sop"] == "fill_diagonal" and cd["id"] in e["in_origin"] and e["id"] in t1["in_origin"]
+                  and e.get("value_text", "").replace(" ", "") in ("float('inf')", "math.inf", "torch.inf", "np.inf", "numpy.inf", "inf")]
+            want_start = Poly.const(0) if fd else ONE
+            good = not problems and start == want_start and (stop - start) == m - f - Poly.const(2)
             ctx.require(good, "K", "Krum: neighbourhood = the m - n_byzantine - 2 nearest other rows",
                         f"window [{start}, {stop}): skips self, {stop - start} distances",
                         f"window [{start}, {stop}) holds {stop - start} distances starting at {start}; expected [1, m - n_byzantine - 1) i.e. m - n_byzantine - 2 non-self distances"
@@ -220,11 +231,18 @@ def check(index, ctx):
             oh = [e for e in ops if e["sop"] == "one_hot" and t2 and t2[0]["id"] in e["in_origin"]]
             ok3 = len(oh) == 1 and oh[0].get("classes_poly") == m and oh[0].get("in_idx_of") == "R"
             # alternative spelling: zeros(m); w[selected] = 1
-            sc = [e for e in ops if e["sop"] == "index_put" and t2 and t2[0]["id"] in e["in_origin"]]
-            ok3b = (not oh and len(sc) == 1 and sc[0].get("base_poly") == Poly.const(0) and sc[0].get("base_axes") == ["R"] and sc[0].get("value_poly") == ONE
-                    and sc[0].get("in_idx_of") == "R" and not sc[0].get("aug"))
+            sc_all = [e for e in ops if e["sop"] == "index_put" and t2 and t2[0]["id"] in e["in_origin"]]
+            sc_ids = sorted({e["id"] for e in sc_all})
+            # (a store executed in a loop over the selected indices is re-evaluated by the fixpoint iteration: the first evaluation sees the fresh zeros)
+            sc = [next(e for e in sc_all if e["id"] == i) for i in sc_ids]
+            ok3b = (not oh and len(sc) == 1 and sc[0].get("base_poly") == Poly.const(0) and sc[0].get("base_axes") == ["R"] and all(e.get("value_poly") == ONE for e in sc_all)
+                    and all(e.get("in_idx_of") == "R" and not e.get("aug") for e in sc_all))
+            # third spelling: isin(arange(m), selected)
+            isn = [e for e in ops if e["sop"] == "isin" and t2 and t2[0]["id"] in e["in_origin"]]
+            ok3c = not oh and not sc and len(isn) == 1 and isn[0].get("in_idx_of") == "R" and isn[0].get("size_poly") == m and isn[0].get("range_full")
+            ok3b = ok3b or ok3c
             ctx.require(ok3 or ok3b, "K", "Krum: weights are indicator vectors of the selected rows", "one_hot(selected indices, m) / zeros(m) with ones stored at the selected indices",
-                        "selected indices are not turned into indicator vectors over the m rows", (oh or sc)[0]["loc"] if (oh or sc) else cls.loc())
+                        "selected indices are not turned into indicator vectors over the m rows", (oh or sc or isn)[0]["loc"] if (oh or sc or isn) else cls.loc())
             # weights = sum of one-hots / n_selected
             wt = [e for e in r.events if e["kind"] == "op" and e["function"].endswith("_KrumWeighting.forward") and e["op"] in ("div", "mul")]
             okw = len(wt) == 1 and wt[0]["op"] == "div" and "=n_selected" in wt[0]["right"]
